@@ -741,6 +741,21 @@ def run(ctx):
     cs = combos(rng, default_share=False)
     rs += [paced_script(rng, cs[i % len(cs)][0], cs[i % len(cs)][1], cs[i % len(cs)][2], 5 if quick else 12)
            for i in range(32 if quick else 200)]
+    # a loopback transport: every packet is acknowledged from inside the pacer's own Write (feedback re-enters the estimator
+    # on the pacer goroutine while the script keeps sending and feeding)
+    for pc in ("leaky", "default", "noop"):
+        for _ in range(2 if quick else 12):
+            sc = random_script(rng, "bwe", rounds, pacer=pc, fb="rfc8888")
+            sc["loopback"] = True
+            rs.append(sc)
+        # many small packets per pacing interval at megabit rates: several acknowledgements re-enter within one tick
+        steps = []
+        for _ in range(4):
+            steps += [{"a": "send", "n": 60, "gap": rng.choice([0, 100]), "size": 200}, {"a": "get"}]
+        steps += [{"a": "fb", "pat": "inc", "loss": 0}, {"a": "get"}]
+        sc = mk_script("bwe", rng.choice([1, 4]), pc, "rfc8888", steps)
+        sc["loopback"] = True
+        rs.append(sc)
     if quick:   # a few loss scripts also in the quick tier (about 1.2 s each, run in parallel with the others)
         rs += [loss_script(rng, c, rng.choice(PACERS[:3]), f) for c in (1, 3, 0, 4, 5) for f in FBS]
     run_batch(ctx, rs, "T-random", par=16)
